@@ -3,6 +3,8 @@
 mod amf;
 mod chunk;
 mod msg;
+mod server;
+mod sess;
 mod util;
 
 use util::parse_args;
@@ -34,6 +36,13 @@ fn main() {
             let shard: u64 = a.rest.get(0).map(|s| s.parse().unwrap()).unwrap_or(0);
             let nshards: u64 = a.rest.get(1).map(|s| s.parse().unwrap()).unwrap_or(1);
             let info = msg::generate(&a.tier, a.seed, shard, nshards, &a.out);
+            println!("{}", info);
+        }
+        "server" => {
+            let kind = a.rest[0].clone();
+            let shard: u64 = a.rest.get(1).map(|s| s.parse().unwrap()).unwrap_or(0);
+            let nshards: u64 = a.rest.get(2).map(|s| s.parse().unwrap()).unwrap_or(1);
+            let info = server::generate(&kind, &a.tier, a.seed, shard, nshards, &a.out);
             println!("{}", info);
         }
         x => {
